@@ -945,12 +945,8 @@ int write_msa_msf(struct msa* msa,char* outfile)
         header_index = -1 * (msa->numseq+10);
         ol = lb->lines[lb->num_line];
         //LOG_MSG("Alphabet : %d", msa->L);
-        if(msa->L == ALPHA_defPROTEIN){
+        if(msa->biotype == ALN_BIOTYPE_PROTEIN){
                 snprintf(ol->line, line_length,"!!AA_MULTIPLE_ALIGNMENT 1.0");
-        }else if(msa->L == ALPHA_redPROTEIN){
-                snprintf(ol->line, line_length,"!!AA_MULTIPLE_ALIGNMENT 1.0");
-        }else if(msa->L == ALPHA_defDNA){
-                snprintf(ol->line, line_length,"!!NA_MULTIPLE_ALIGNMENT 1.0");
         }else{
                 snprintf(ol->line, line_length,"!!NA_MULTIPLE_ALIGNMENT 1.0");
         }
@@ -982,12 +978,12 @@ int write_msa_msf(struct msa* msa,char* outfile)
                 RUN(tlfilename(outfile, &basename));
         }
 
-        written = snprintf(ol->line, line_length," %s  MSF: %d  Type: %c  %s  Check: %d  ..", outfile == NULL ? "stdout" :   basename,aln_len, msa->L == ALPHA_defPROTEIN ? 'P' : 'N', date, GCGMultchecksum(msa));
+        written = snprintf(ol->line, line_length," %s  MSF: %d  Type: %c  %s  Check: %d  ..", outfile == NULL ? "stdout" :   basename,aln_len, msa->biotype == ALN_BIOTYPE_PROTEIN ? 'P' : 'N', date, GCGMultchecksum(msa));
 
         if(written >= line_length){
                 MREALLOC(lb->lines[lb->num_line]->line,sizeof(char) * (written+1));
                 ol = lb->lines[lb->num_line];
-                written = snprintf(ol->line, written+1," %s  MSF: %d  Type: %c  %s  Check: %d  ..", outfile == NULL ? "stdout" : basename,aln_len, msa->L == ALPHA_defPROTEIN ? 'P' : 'N', date, GCGMultchecksum(msa));
+                written = snprintf(ol->line, written+1," %s  MSF: %d  Type: %c  %s  Check: %d  ..", outfile == NULL ? "stdout" : basename,aln_len, msa->biotype == ALN_BIOTYPE_PROTEIN ? 'P' : 'N', date, GCGMultchecksum(msa));
 
         }
 
